@@ -56,9 +56,12 @@ def bounded_placement(tier, seed):
     for typ, text, value in kinds:
         for off in range(4):
             for nb in neighbours[: (2 if tier == "quick" and typ not in ("network.ip", "executable.filename", "network.domain") else 4)]:
-                for dup in (False, True):
+                for dup, follow in ((False, b""), (True, b""), (False, b" <t>"), (False, b" and more <w:t>"), (False, b" then ces. 1")):
+                    if follow and typ not in ("network.ip", "network.domain", "executable.filename") and tier == "quick":
+                        continue
                     pre = nb + b" " * off + (b"\x00" if typ == "pe_file" else b"")
-                    data = pre + text + (b" ; " + text if dup else b"") + b" \n"
+                    # `follow`: unrelated text AFTER the indicator (the documented false-positive heuristics look at what PRECEDES it)
+                    data = pre + text + (b" ; " + text if dup else b"") + follow + b" \n"
                     n += 1
                     distinct.add((typ, text))
                     want = [(len(pre), len(pre) + len(text))] + ([(len(pre) + len(text) + 3, len(pre) + 2 * len(text) + 3)] if dup else [])
@@ -72,7 +75,7 @@ def bounded_placement(tier, seed):
                     if missing and sum(1 for f in failures if f["id"].startswith(f"{typ} ")) < 2:
                         failures.append({"id": f"{typ} not reported at {missing}", "function": "multidecoder.decoders", "obligation": "bounded/C11", "case": {"place": data.hex(), "type": typ, "value": value.hex(), "want": want},
                                          "observed": f"{data[:120]!r}: no {typ} node with value {value[:40]!r} at span(s) {missing}; {typ} nodes found at {sorted(abs_span(x) for x in tree if x.type == typ)}"})
-    return {"evaluations": n, "distinct_nontrivial": len(distinct), "scope": "indicator instances x offsets 0..3 x {alone, after an unrelated URL, after a CreateObject(URL) context, after file/domain names} x {once, twice}", "failures": failures,
+    return {"evaluations": n, "distinct_nontrivial": len(distinct), "scope": "indicator instances x offsets 0..3 x {alone, after an unrelated URL, after a CreateObject(URL) context, after file/domain names} x {once, twice, followed by unrelated markup}", "failures": failures,
             "samples": [{"place": (b" " + kinds[0][1] + b" \n").hex(), "type": kinds[0][0]}]}
 
 
